@@ -9,6 +9,7 @@ What of Python's semantics the encoding assumes is documented in DESIGN.md secti
 """
 from __future__ import annotations
 import ast
+import os
 import itertools
 from dataclasses import dataclass, field
 import z3
@@ -432,16 +433,29 @@ class Engine:
         if ty.is_reflike(t) and ty.is_reflike(v.t):
             return V(t, v.z)
         if v.t.kind == "opt" and t == v.t.args[0]:
+            if getattr(self, "_spec_depth", 0) == 0:
+                # executed code hands a possibly-None value to a place the sidecar types as non-optional (Python converts nothing):
+                # the statement that does so owes a proof that the value is not None (flushed by ex_stmt)
+                self.__dict__.setdefault("_pending_unwrap", []).append(ty.opt_sort(t)[4](v.z))
             return V(t, ty.opt_sort(t)[3](v.z))
         if v.t.kind == "opt" and t.kind == "real" and v.t.args[0].kind == "int":
+            if getattr(self, "_spec_depth", 0) == 0:
+                self.__dict__.setdefault("_pending_unwrap", []).append(ty.opt_sort(INT)[4](v.z))
             return V(REAL, z3.ToReal(ty.opt_sort(INT)[3](v.z)))
         if t.kind == "tuple" and v.t.kind == "tuple" and len(t.args) == len(v.t.args):
             parts = [self.coerce(self.tuple_get(v, i), t.args[i]) for i in range(len(t.args))]
             dt, mk, accs = ty.tuple_sort(t)
             return V(t, mk(*[p.z for p in parts]))
         if t.kind == "int" and v.t.kind == "real":
-            # only used where the schema says int but a value is typed real (e.g. numeric params)
-            return V(INT, z3.ToInt(v.z))
+            # Python converts nothing here: a real value that flows into a place the sidecar types as int stays a float.
+            # Accepted only where the value is integral by construction (an integer literal written as a real, or an integer
+            # that was widened); anything else is outside the typing the contracts assume and the function is reported as unreachable
+            z = z3.simplify(v.z)
+            if z3.is_rational_value(z) and z.denominator_as_long() == 1:
+                return V(INT, z3.IntVal(z.numerator_as_long()))
+            if z3.is_app_of(z, z3.Z3_OP_TO_REAL):
+                return V(INT, z.arg(0))
+            raise CheckerError("a real value flows into a place the sidecar contracts type as int (Python performs no conversion there)")
         raise CheckerError(f"cannot coerce {v.t} to {t}")
 
     def join_t(self, a: T, b: T) -> T:
@@ -696,6 +710,12 @@ class Engine:
         m = getattr(self, "ev_" + type(node).__name__, None)
         if m is None:
             raise CheckerError(f"{fr.qname}: expression form {type(node).__name__} not modelled (line {getattr(node, 'lineno', '?')})")
+        if fr.spec:
+            self._spec_depth = getattr(self, "_spec_depth", 0) + 1
+            try:
+                return m(node, st, fr)
+            finally:
+                self._spec_depth -= 1
         return m(node, st, fr)
 
     def ev_Constant(self, node, st, fr):
@@ -1509,7 +1529,22 @@ class Engine:
             raise CheckerError(f"{fr.qname}: statement form {type(s).__name__} not modelled (line {s.lineno})")
         saved = fr.exc
         fr.exc = []
-        outs = m(s, st, fr)
+        outer_pending = self.__dict__.get("_pending_unwrap", [])
+        self._pending_unwrap = []
+        try:
+            outs = m(s, st, fr)
+        finally:
+            pend, self._pending_unwrap = self._pending_unwrap, outer_pending
+        if pend and not fr.spec:
+            seen = []
+            for is_none in pend:
+                if any(is_none.eq(x) for x in seen):
+                    continue
+                seen.append(is_none)
+                for o in outs:
+                    if o.kind in ("ok", "ret") and o.st is not None:
+                        self.oblige(fr, o.st, "unwrap", f"L{getattr(s, 'lineno', 0)}:{len(seen) - 1}", z3.Not(is_none),
+                                    info="a possibly-None value reaches a place typed as non-optional")
         outs = list(outs) + fr.exc
         fr.exc = saved
         return outs
